@@ -311,6 +311,10 @@ def gen_session(rng, tier, si):
         call = {"sent": s, "op": op, "params": params, "shuffle": rng.randrange(1 << 30)}
         if rng.random() < 0.3:
             call["via_export"] = True          # the tree comes from the export reader
+        if rng.random() < 0.15:
+            # the tree object has been written out before it is edited (a writer numbers the
+            # nodes it writes; the edit must not take that for anything)
+            call["written_before"] = rng.choice(["export", "tigerxml"])
         if op in ("punctuation_delete", "ptb_delete_traces", "insert_terminals",
                   "delete_terminal") and rng.random() < 0.3 and "slash" not in params:
             n = len(s["tokens"])
@@ -346,6 +350,8 @@ def build_spec(sc):
                 ops.append(["next", "rd", "t"])
             else:
                 ops.append(["build", "t", c["sent"], c["shuffle"]])
+            if c.get("written_before"):
+                ops += [["sio", "o"], ["write", c["written_before"], "t", "o", {}]]
             if c["op"] == "delete_terminal":
                 ops.append(["call", "delete_terminal", "t", c["params"]["num"]])
                 if c.get("then_filter"):
@@ -614,7 +620,7 @@ def shrink_candidates(sc):
                 c["sessions"][i]["files"][p]["text"] = "\n".join(rest) + ("\n" if rest else "")
                 yield c
         for j, call in enumerate(s["calls"]):
-            for flag in ("via_export", "then_filter"):
+            for flag in ("via_export", "then_filter", "written_before"):
                 if call.get(flag):
                     c = model.clone(sc)
                     del c["sessions"][i]["calls"][j][flag]
